@@ -23,7 +23,11 @@ use serde_json::{json, Value};
 use std::collections::{BTreeMap, BTreeSet};
 use std::io::Write;
 
-pub const VERIF_DIR: &str = "/verif";
+/// Root of the verification tree (the `check` script exports its own
+/// directory so that a snapshot elsewhere writes into itself).
+pub fn verif_dir() -> String {
+    std::env::var("TZSIM_VERIF_DIR").unwrap_or_else(|_| "/verif".to_string())
+}
 
 pub fn arg(args: &[String], name: &str) -> Option<String> {
     args.iter().position(|a| a == name).and_then(|i| args.get(i + 1).cloned())
@@ -54,7 +58,7 @@ pub struct KnownFindings {
 impl KnownFindings {
     pub fn load() -> Self {
         let mut findings = vec![];
-        if let Ok(s) = std::fs::read_to_string(format!("{VERIF_DIR}/known-findings.txt")) {
+        if let Ok(s) = std::fs::read_to_string(format!("{}/known-findings.txt", verif_dir())) {
             for line in s.lines() {
                 let line = line.trim();
                 let Some(rest) = line.strip_prefix("finding:") else { continue };
@@ -211,8 +215,8 @@ fn worker(args: &[String]) -> i32 {
             if violations.len() < max_viol {
                 let sh = shrink::shrink(&plan, rep.schedule.clone(), v, 500);
                 let name = format!("{}-{}-{}-{}.json", prop, profile_name(), seed, index);
-                let path = format!("{VERIF_DIR}/replays/{name}");
-                let _ = std::fs::create_dir_all(format!("{VERIF_DIR}/replays"));
+                let path = format!("{}/replays/{name}", verif_dir());
+                let _ = std::fs::create_dir_all(format!("{}/replays", verif_dir()));
                 let doc = json!({
                     "property": prop,
                     "profile": profile_name(),
